@@ -473,13 +473,6 @@ Proof.
     match goal with |- context [resolve ?F0 ?S0 ?i0 (?l0 ++ [I ?o0 ?a0])] =>
       change (resolve F0 S0 i0 (l0 ++ [I o0 a0])) with (resolve F0 S0 i0 (l0 ++ [CI (mkI o0 a0)])) end.
     rewrite resolve_snoc_CI. eexists. eexists. split; [rewrite !app_assoc; reflexivity|discriminate].
-  - rewrite sitems_SFrom. cbv zeta. destruct collide.
-    + rewrite app_nil_r.
-      match goal with |- context [resolve ?F0 ?S0 ?i0 (?l0 ++ [I ?o0 ?a0])] =>
-        change (resolve F0 S0 i0 (l0 ++ [I o0 a0])) with (resolve F0 S0 i0 (l0 ++ [CI (mkI o0 a0)])) end.
-      rewrite resolve_snoc_CI. eexists. eexists. split; [rewrite !app_assoc; reflexivity|discriminate].
-    + eexists. exists (I OP_DELETE_NAME_SCOPED [from_idn lr name; lregn (S (from_lr1 lr name))]). split; [|discriminate].
-      rewrite !app_assoc. reflexivity.
   - exists [], (CBrk (match sl with Some n => n | None => 0 end)). split; [reflexivity|discriminate].
   - exists [], (CCont (match sl with Some n => n | None => 0 end)). split; [reflexivity|discriminate].
   - destruct e as [e|]; [|discriminate]. eexists. eexists. split; [cbn [sitems]; reflexivity|reflexivity].
